@@ -265,6 +265,8 @@ def run(tier):
         # R20.extent + R20.diff
         res_dbg = {}
         for n in dbg.ops:
+            if dbg.ops[n].get("only") == "ctl":
+                continue          # control operations of other rules (deliberate misuse written in the driver)
             try:
                 res_dbg[n] = owning_traces(dbg, n)
             except absint.Limit as e:
